@@ -57,7 +57,7 @@ Qed.
 
 Ltac crush :=
   repeat match goal with
-         | |- context [match find_by_prefix ?p ?l with _ => _ end] => destruct (find_by_prefix p l)
+         | |- context [match rename_partner ?n ?p ?l with _ => _ end] => destruct (rename_partner n p l)
          | |- context [if ?c then _ else _] => destruct c
          end; simpl; auto; try (apply in_app_iff; auto).
 
@@ -100,20 +100,65 @@ Proof.
 Qed.
 
 (* a service which kept its request prefix but changed its name is reported as renamed *)
+Lemma find_by_prefix_mem p olds s : find_by_prefix p olds = Some s -> mem_prefix p olds = true.
+Proof.
+  induction olds as [|o olds IH]; simpl; [discriminate|].
+  destruct (oprefix_eqb p (sv_prefix o)); [reflexivity | exact IH].
+Qed.
+Lemma find_vanished_mem news p olds s : find_vanished news p olds = Some s -> mem_prefix p olds = true.
+Proof.
+  induction olds as [|o olds IH]; simpl; [discriminate|].
+  destruct (oprefix_eqb p (sv_prefix o)); simpl; [reflexivity|exact IH].
+Qed.
+Lemma rename_partner_mem news p olds s : rename_partner news p olds = Some s -> mem_prefix p olds = true.
+Proof.
+  unfold rename_partner. destruct (find_vanished news p olds) eqn:E.
+  - intros _. eapply find_vanished_mem; eauto.
+  - apply find_by_prefix_mem.
+Qed.
+
 Theorem renamed_service_is_reported news olds s s_old :
   In s news -> mem_name (sv_name s) olds = false ->
-  find_by_prefix (sv_prefix s) olds = Some s_old ->
+  rename_partner news (sv_prefix s) olds = Some s_old ->
   In (sv_name s, sv_name s_old) (r_renamed (compare_layers news olds)).
 Proof.
   intros Hin Hn Hf. unfold compare_layers.
-  assert (Mp : mem_prefix (sv_prefix s) olds = true).
-  { clear -Hf. induction olds as [|o olds IH]; simpl in *; [discriminate|].
-    destruct (oprefix_eqb (sv_prefix s) (sv_prefix o)); [reflexivity | now apply IH]. }
+  assert (Mp : mem_prefix (sv_prefix s) olds = true) by (eapply rename_partner_mem; eauto).
   assert (Step : forall l r, In s l -> In (sv_name s, sv_name s_old) (r_renamed (fold_left (outer_step news olds) l r))).
   { induction l as [|a l IH]; intros r Hs; [contradiction|]. simpl. destruct Hs as [->|Hs]; [|now apply IH].
     apply fold_renamed_mono. unfold outer_step. rewrite inner_renamed, (not_mem_svc s olds Hn), Hn, Mp, Hf. simpl.
     destruct (negb (sv_body s =? sv_body s_old)); simpl; apply in_app_iff; right; now left. }
   now apply Step.
+Qed.
+
+(* the partner of an actual rename edit: the old layer is pre ++ s_old :: post, the name of s_old
+   does not occur in the new layer, every service in front of it which shares the request prefix
+   still exists under its name -- whatever else shares the prefix *)
+Lemma rename_partner_of_edit news pre post s_old p :
+  oprefix_eqb p (sv_prefix s_old) = true ->
+  mem_name (sv_name s_old) news = false ->
+  (forall o, In o pre -> oprefix_eqb p (sv_prefix o) = true -> mem_name (sv_name o) news = true) ->
+  rename_partner news p (pre ++ s_old :: post) = Some s_old.
+Proof.
+  intros Hp Hv Hpre. unfold rename_partner.
+  assert (F : find_vanished news p (pre ++ s_old :: post) = Some s_old).
+  { induction pre as [|o pre IH]; simpl.
+    - now rewrite Hp, Hv.
+    - destruct (oprefix_eqb p (sv_prefix o)) eqn:Eo; simpl.
+      + rewrite (Hpre o (or_introl eq_refl) Eo). simpl. apply IH. intros x Hx. apply Hpre. now right.
+      + apply IH. intros x Hx. apply Hpre. now right. }
+  now rewrite F.
+Qed.
+
+Theorem rename_edit_is_reported news pre post s s_old :
+  In s news -> mem_name (sv_name s) (pre ++ s_old :: post) = false ->
+  oprefix_eqb (sv_prefix s) (sv_prefix s_old) = true ->
+  mem_name (sv_name s_old) news = false ->
+  (forall o, In o pre -> oprefix_eqb (sv_prefix s) (sv_prefix o) = true -> mem_name (sv_name o) news = true) ->
+  In (sv_name s, sv_name s_old) (r_renamed (compare_layers news (pre ++ s_old :: post))).
+Proof.
+  intros Hin Hn Hp Hv Hpre. apply renamed_service_is_reported; auto.
+  now apply rename_partner_of_edit.
 Qed.
 
 (* the behaviour before the fix commit: the rename branch was unreachable *)
@@ -122,5 +167,7 @@ Example compare_examples :
   compare_layers (mkSvc 3 (Some [62]) 9 3 :: L) L = mkR [3] [] [] [] /\
   compare_layers L (mkSvc 3 (Some [62]) 9 3 :: L) = mkR [] [3] [] [] /\
   compare_layers [mkSvc 5 (Some [34; 1]) 7 5; mkSvc 2 (Some [16]) 8 2] L = mkR [] [] [(5, 1)] [] /\
-  compare_layers [mkSvc 1 (Some [34; 1]) 70 1; mkSvc 2 (Some [16]) 8 2] L = mkR [] [] [] [1].
+  compare_layers [mkSvc 1 (Some [34; 1]) 70 1; mkSvc 2 (Some [16]) 8 2] L = mkR [] [] [] [1] /\
+  (* two services share a request prefix, the second one is renamed *)
+  compare_layers [mkSvc 1 (Some [16]) 7 1; mkSvc 5 (Some [16]) 8 5] [mkSvc 1 (Some [16]) 7 1; mkSvc 2 (Some [16]) 8 2] = mkR [] [] [(5, 2)] [].
 Proof. vm_compute. repeat split. Qed.
